@@ -60,6 +60,13 @@ class Prop(common.PropertyCheck):
         for i in range(self.budget(30, 240)):
             yield {'N': [3, 40][i % 2], 'D': 2 + i % 5, 'data': ['spread', 'modal'][(i // 2) % 2], 'cont': ['sample', 'array_float', 'sample_rfi', 'array_int', 'sample_reordered'][i % 5],
                    'chform': ['negk', 'negk_list1', 'negk_mixed'][(i // 5) % 3], 'k': 1 + (i * 7) % (2 + i % 5) if i % 3 else 2 + i % 5, 'seed': rng.randrange(1 << 30)}
+        # raw integer samples with events at and above a non-power-of-two $PnR; narrow unsigned containers with events at the maximum of the type
+        for i in range(self.budget(18, 150)):
+            yield {'N': [40, 400, 7][i % 3], 'D': 2 + i % 3, 'data': ['spread', 'modal'][i % 2], 'cont': 'sample', 'chform': ['none', 'list', 'name', 'pos', 'perm'][i % 5],
+                   'seed': rng.randrange(1 << 30), 'above_range': True}
+        for i in range(self.budget(12, 100)):
+            yield {'N': [400, 300][i % 2], 'D': 2 + i % 2, 'data': 'spread', 'cont': 'array_narrow', 'chform': ['none', 'list', 'pos', 'perm'][i % 4],
+                   'seed': rng.randrange(1 << 30), 'sat_max': 8}
         # big-endian files (integer and floating-point): the statistics are those of the values, whatever the byte order of the container
         for i in range(self.budget(24, 200)):
             yield {'N': [7, 40, 3][i % 3], 'D': 2 + i % 4, 'data': ['spread', 'modal', 'ties'][(i // 2) % 3], 'cont': ['sample', 'sample_reordered', 'sample'][i % 3],
@@ -135,7 +142,11 @@ class Prop(common.PropertyCheck):
             cont = 'sample_rfi'        # the power-law curve of this harness has no value at negative inputs
         names = None
         if cont.startswith('array'):
-            if cont == 'array_narrow':
+            if cont == 'array_narrow' and case.get('sat_max'):
+                # an 8-bit container with many more elements than values, some events at the maximum of the type
+                d = np.clip(ev // 4, 1, 254).astype(np.uint8)
+                d[::7, :] = np.iinfo(d.dtype).max
+            elif cont == 'array_narrow':
                 d = (ev * 30).astype(np.int16) if kind == 'negative' else \
                     ev.astype(np.uint16) if kind == 'bright' or r.rand() < 0.5 else (ev // 8).astype(np.uint8) if r.rand() < 0.5 else (ev * 30).astype(np.int16)
             else:
@@ -152,6 +163,10 @@ class Prop(common.PropertyCheck):
                 import struct as _st
                 spec.update({'datatype': 'F', 'widths': [32] * D, 'pne': {str(i + 1): '0,0' for i in range(D)},
                              'events': [[_st.unpack('<I', _st.pack('<f', float(v)))[0] for v in row] for row in ev]})
+            if case.get('above_range'):
+                # a declared range that is not a power of two: the file holds events at and above $PnR (the reader keeps ceil(log2($PnR)) bits)
+                spec['ranges'] = [1000] * D
+                spec['events'] = [[int(min(v, 1023)) if (i + j) % 3 else 1000 + (i * 7 + j) % 24 for j, v in enumerate(row)] for i, row in enumerate(ev)]
             if case.get('floatfile') and kind != 'negative':
                 # a floating-point file holding values with a fractional part
                 import struct as _st
